@@ -140,7 +140,9 @@ TransparentV(kind) == IF kind.lab \in {"EP", "IX"} THEN Inf ELSE 0
 
 \* combine an edge value with the value below it
 Combine(kind, ev, v) ==
-    CASE kind.lab \in {"EP", "IX"} -> IF v = Inf \/ Bad(v) \/ Bad(ev) THEN v ELSE Guard(ev + v, FALSE)
+    CASE kind.lab \in {"EP", "IX"} -> IF v = Inf THEN Inf
+                                        ELSE IF Bad(v) \/ Bad(ev) THEN OffGrid     \* a value the encoding cannot carry
+                                        ELSE Guard(ev + v, FALSE)
       [] kind.lab = "ET" -> IF Bad(v) \/ Bad(ev) THEN OffGrid ELSE ScMult("T", ev, v)
       [] OTHER -> v
 
